@@ -171,7 +171,10 @@ def def_case(res, case):
                 kind = 'special' if special else 'regular'
                 routed = 'routed' if n['wires'] else 'unrouted'
                 try:
+                    first_w = repr(dict(dn.wires))      # listings must not change what later calls return
                     gv = {k: [tuple(x) for x in v] for k, v in dict(dn.vias).items() if len(v)}
+                    if repr(dict(dn.wires)) != first_w or {k: [tuple(x) for x in v] for k, v in dict(dn.vias).items() if len(v)} != gv:
+                        bad(f'{kind}-unstable', f'net {n["name"]}: wires/vias listings differ between repeated accesses')
                 except Exception as ex:
                     bad(f'{kind}-{routed}-vias-{type(ex).__name__}', f'net {n["name"]}.vias raised {ex!r}'); gv = None
                 if gv is not None and {k: sorted(v) for k, v in gv.items()} != {k: sorted(v) for k, v in exp_v.items()}:
